@@ -5,7 +5,7 @@
      C23_collapse / C23_normalize   collapsing with a sound join keeps every member value;
      C23_vmap / C23_vunion     per region: applying an operation in every region, and the union of two value sets.
    Instances over the strided-interval model (Model/SI.v, whose helpers are regenerated from the source):
-     C23_dsis_add / C23_dsis_sub / C23_dsis_neg / C23_vs_add, for every width below the resource limit and sets of any size.
+     C23_dsis_add / C23_dsis_sub / C23_dsis_neg / C23_dsis_not / C23_vs_add, for every width below the resource limit and sets of any size.
    The join, cardinality and the remaining transfer functions of real intervals are parameters here (their soundness is C21's
    subject); the correspondence check compares lifted add/sub/neg exactly and the structure of unions. *)
 Require Import CV.Model.PyPrelude CV.Model.SI CV.Model.Lift CV.Proofs.SISound CV.Proofs.LiftSound CV.Proofs.LiftSI.
@@ -70,6 +70,11 @@ Theorem C23_dsis_neg : forall w s, Forall (wfw w) s -> Forall proper s ->
   exists r, dsis_neg s = Ok r /\ Forall (wfw w) r /\ forall y, gset si gamma s y -> gset si gamma r ((- y) mod 2 ^ w).
 Proof. exact dsis_neg_sound. Qed.
 Print Assumptions C23_dsis_neg.
+
+Theorem C23_dsis_not : forall w s, Forall (wfw w) s -> Forall proper s ->
+  exists r, dsis_not s = Ok r /\ Forall (wfw w) r /\ forall y, gset si gamma s y -> gset si gamma r (2 ^ w - 1 - y).
+Proof. exact dsis_not_sound. Qed.
+Print Assumptions C23_dsis_not.
 
 Theorem C23_vs_add : forall (R : Type) (r_eqb : R -> R -> bool) w (v : vset si R) c, vwf si (wfw w) R v -> wfw w c ->
   exists r, vs_add v c = Ok r /\ vwf si (wfw w) R r /\
